@@ -53,6 +53,7 @@ func init() {
   choice h {
     case a { leaf a1 { type string; } }
     case u { uses g; }
+    case r { leaf r1 { type int32 { range "1..5"; } } leaf r2 { type string { length "1..2"; } } }
     case n { choice in { case n1 { container nd { leaf x { type string; } } } case n2 { list nl { key k; leaf k { type string; } } leaf n2l { type string; } } } }
   }
   augment "/h" { case aug { leaf au1 { type string; } container auc { leaf x { type string; } } } }
@@ -86,6 +87,11 @@ var c09AugAlphabet = []c09Op{
 	{"nested/case-holding-only-a-choice", `{"w":{"t1":"a"}}`, ""},
 	{"nested/case-holding-only-a-choice", `{"w":{"t2":"b"}}`, ""},
 	{"outside", `{"w":{"keep":"a"}}`, ""},
+	// a value the type refuses: the edit fails and what another case holds stays
+	{"ranged-case/leaf", `{"r1":3}`, ""},
+	{Tag: "refused/out-of-range-leaf", Doc: `{"r1":9}`, Strat: "reject"},
+	{Tag: "refused/too-long-leaf", Doc: `{"r2":"toolong"}`, Strat: "reject"},
+	{Tag: "refused/set-out-of-range-leaf", Doc: `{"r1":9}`, Strat: "set-reject"},
 }
 
 var c09Alphabets = map[string][]c09Op{"": c09Alphabet, "choicewhen": c09WhenAlphabet, "choiceaug": c09AugAlphabet}
@@ -225,7 +231,7 @@ func c09Step(c c09Case, inst *c09Inst, op c09Op) []eng.StepViol {
 	if err != nil {
 		panic(err)
 	}
-	desc := fmt.Sprintf("%s %s on %s", map[string]string{"": "upsert", "insert": "insert", "update": "update", "set": "Find+SetValue"}[op.Strat], op.Doc, before)
+	desc := fmt.Sprintf("%s %s on %s", map[string]string{"": "upsert", "insert": "insert", "update": "update", "set": "Find+SetValue", "reject": "upsert", "set-reject": "Find+SetValue"}[op.Strat], op.Doc, before)
 	var uerr error
 	setSkipped := false
 	fr, msg, pan := eng.Recover(func() {
@@ -242,7 +248,7 @@ func c09Step(c c09Case, inst *c09Inst, op c09Op) []eng.StepViol {
 			src = store.ContainerNode(s.Clone())
 		}
 		switch op.Strat {
-		case "set":
+		case "set", "set-reject":
 			var doc interface{}
 			if err := json.Unmarshal([]byte(op.Doc), &doc); err != nil {
 				panic(err)
@@ -276,6 +282,15 @@ func c09Step(c c09Case, inst *c09Inst, op c09Op) []eng.StepViol {
 	})
 	if pan {
 		return []eng.StepViol{{Sig: site + "/panic:" + fr, What: desc + ": " + msg}}
+	}
+	if strings.HasSuffix(op.Strat, "reject") {
+		if uerr == nil && !setSkipped {
+			return []eng.StepViol{{Sig: site + "/refused-value-accepted", What: desc}}
+		}
+		if got := env.snap(); got.Canon(m.DataDefinitions(), env.canonOpts()) != before.Canon(m.DataDefinitions(), env.canonOpts()) {
+			return []eng.StepViol{{Sig: site + "/refused-edit-changed-the-target", What: fmt.Sprintf("%s: %v; store now %s", desc, uerr, got)}}
+		}
+		return nil
 	}
 	if uerr != nil && (op.Strat == "" || (!errors.Is(uerr, fc.ConflictError) && !errors.Is(uerr, fc.NotFoundError))) {
 		return []eng.StepViol{{Sig: site + "/error-on-valid", What: fmt.Sprintf("%s: %v", desc, uerr)}}
